@@ -148,11 +148,11 @@ Definition second_ok (a : string) (bi : string * string) : bool :=
 
 Definition atom_ok (a : string) : bool := split_res_is a [a] && forallb (second_ok a) SECOND_ATOMS.
 
-Definition split_compound_b : bool :=
-  forallb (fun p => forallb (fun u => forallb (fun w => atom_ok (print_unit p u w)) POWER_SUFFIXES) UNITS) ALL_PREFIXES.
-
-Lemma split_compound_check : split_compound_b = true.
-Proof. vm_compute. reflexivity. Qed.
+(** stated on the unfolded sweep so that using it needs no conversion (the kernel would otherwise
+    re-evaluate the sweep with its slow reduction machine) *)
+Lemma split_compound_check :
+  forallb (fun p => forallb (fun u => forallb (fun w => atom_ok (print_unit p u w)) POWER_SUFFIXES) UNITS) ALL_PREFIXES = true.
+Proof. vm_cast_no_check (@eq_refl bool true). Qed.
 
 Lemma split_res_is_use : forall s l, split_res_is s l = true -> splitCompoundUnit s = Ok l /\ spec_split_compound s = Some l.
 Proof.
@@ -185,7 +185,7 @@ Theorem splitCompoundUnit_grammar : forall p u w b b', In p ALL_PREFIXES -> In u
   spec_split_compound (print_unit p u w ++ "/" ++ b) = Some [print_unit p u w; b'].
 Proof.
   intros p u w b b' Hp Hu Hw Hb. apply atom_ok_use; [|exact Hb].
-  pose proof split_compound_check as H. unfold split_compound_b in H.
+  pose proof split_compound_check as H.
   rewrite forallb_forall in H. specialize (H _ Hp).
   rewrite forallb_forall in H. specialize (H _ Hu).
   rewrite forallb_forall in H. exact (H _ Hw).
